@@ -42,6 +42,7 @@ class Source(Stream):
 
     def __init__(self, start=False, **kwargs):
         self.stopped = True
+        self._running = False
         super().__init__(ensure_io_loop=True, **kwargs)
         self.started = False
         if start:
@@ -61,7 +62,18 @@ class Source(Stream):
         if self.stopped:
             self.stopped = False
             self.started = True
-            self.loop.add_callback(self.run)
+            if not self._running:
+                # a polling loop that has not yet noticed an earlier stop() simply carries on
+                self._running = True
+                self.loop.add_callback(self._run_once)
+
+    async def _run_once(self):
+        try:
+            result = self.run()
+            if isawaitable(result):
+                await result
+        finally:
+            self._running = False
 
     async def run(self):
         """This coroutine will be invoked by start() and emit all data
@@ -796,16 +808,21 @@ class from_iterable(Source):
 
     def __init__(self, iterable, **kwargs):
         self._iterable = iterable
+        self._iterator = None
         super().__init__(**kwargs)
 
     async def run(self):
-        for x in self._iterable:
-            if self.stopped:
+        # one iterator for the life of the source: a restart continues where the
+        # previous run stopped instead of emitting the first items again
+        if self._iterator is None:
+            self._iterator = iter(self._iterable)
+        while not self.stopped:
+            try:
+                x = next(self._iterator)
+            except StopIteration:
+                self.stopped = True
                 break
             await asyncio.gather(*self._emit(x))
-            if self.stopped:
-                break
-        self.stopped = True
 
 
 @Stream.register_api()
